@@ -46,3 +46,9 @@ package vm
 //@ pure
 //@ requires c != nil
 //@ ensures result == c.flags
+
+//@ ghost VM.failed bool
+//@ func (*VM).HasFailed
+//@ assumed
+//@ pure
+//@ ensures result == v.failed
